@@ -30,13 +30,16 @@ PROP = 'C05'
 
 # ------------------------------------------------------------------------------------------ contract of evaluable.unique
 
-def unique_spec(arr_at, N, U, n_out, INV, W):
-    """Clauses relating the input vector (arr_at, length N) to unique values U[0:n_out], inverse INV[0:N], witness W[0:n_out]."""
+def unique_spec(arr_at, N, U, n_out, INV, W, forall=None):
+    """Clauses relating the input vector (arr_at, length N) to unique values U[0:n_out], inverse INV[0:N], witness W[0:n_out].
+    `forall(body)`: a universal quantifier when the clauses are ASSUMED (callers); the instance at a fresh constant when they are
+    PROVED (generalisation), so both readings are the same statement."""
+    forall = forall or (lambda body: qforall(1, body))
     return [
-        ('count', z3.And(0 <= n_out, n_out <= N, (n_out == 0) == (N == 0))),
-        ('strictly-increasing', qforall(1, lambda u: z3.Implies(z3.And(0 <= u, u + 1 < n_out), U(u) < U(u + 1)))),
-        ('inverse-maps-to-own-value', qforall(1, lambda k: z3.Implies(z3.And(0 <= k, k < N), z3.And(0 <= INV(k), INV(k) < n_out, U(INV(k)) == arr_at(k))))),
-        ('every-unique-value-occurs', qforall(1, lambda u: z3.Implies(z3.And(0 <= u, u < n_out), z3.And(0 <= W(u), W(u) < N, arr_at(W(u)) == U(u))))),
+        ('count', z3.And(0 <= n_out, (n_out == 0) == (N == 0))),
+        ('strictly-increasing', forall(lambda u: z3.Implies(z3.And(0 <= u, u + 1 < n_out), U(u) < U(u + 1)))),
+        ('inverse-maps-to-own-value', forall(lambda k: z3.Implies(z3.And(0 <= k, k < N), z3.And(0 <= INV(k), INV(k) < n_out, U(INV(k)) == arr_at(k))))),
+        ('every-unique-value-occurs', forall(lambda u: z3.Implies(z3.And(0 <= u, u < n_out), z3.And(0 <= W(u), W(u) < N, arr_at(W(u)) == U(u))))),
     ]
 
 
@@ -238,12 +241,296 @@ class Assparse(Contract):
         return NativeBounded.script_for('c05b', 'assparse()')
 
 
+# ------------------------------------------------------------------------------------------ evaluable.unique
+
+def induction(cx, name, N, P, k):
+    """forall 0 <= k < N: P(k), by explicit base and step obligations (DESIGN 2.6, third route); `k` is a fresh constant."""
+    cx.oblige('lemma:induction:%s:base' % name, z3.Implies(N > 0, P(z3.IntVal(0))), kind='lemma')
+    cx.oblige('lemma:induction:%s:step' % name, z3.Implies(z3.And(1 <= k, k < N, P(k - 1)), P(k)), kind='lemma')
+    cx.assume(qforall(1, lambda i: z3.Implies(z3.And(0 <= i, i < N), P(i))),
+              axiom='induction over the position k for %s (base and step are discharged as obligations of this contract)' % name)
+
+
+class Unique(Contract):
+    """evaluable.unique(array, return_inverse=True): the real body, composed of ArgSort / Take / UniqueMask / Find / UniqueInverse,
+    establishes the contract `unique_spec` that Array.assparse relies on."""
+    prop = PROP
+    fn = 'evaluable:unique'
+    label = 'return_inverse'
+
+    def setup(self, cx):
+        N = cx.int('len(array)')
+        cx.assume(N >= 0)
+        arr = A.fresh(cx, 'array', (N,), INT, report=False)
+        S = State(args=(arr,), kwargs={'return_inverse': True}, N=N, arr=arr, k=cx.int('k'), m=cx.int('m'), made={})
+        I = z3.IntSort()
+
+        def ArgSort(ctx, a):
+            if a is not arr:
+                raise Unsupported('ArgSort of another array')
+            srt, rnk = z3.Function(ctx.name('sorter'), I, I), z3.Function(ctx.name('rank'), I, I)
+            ax = 'numpy.argsort(kind=stable): a permutation of range(n) (with inverse `rank`) that sorts the array (transitive form)'
+            ctx.assume(qforall(1, lambda i: z3.Implies(z3.And(0 <= i, i < N), z3.And(0 <= srt(i), srt(i) < N, rnk(srt(i)) == i))), axiom=ax)
+            ctx.assume(qforall(1, lambda m: z3.Implies(z3.And(0 <= m, m < N), z3.And(0 <= rnk(m), rnk(m) < N, srt(rnk(m)) == m))), axiom=ax)
+            ctx.assume(qforall(2, lambda i, j: z3.Implies(z3.And(0 <= i, i <= j, j < N), arr.at((srt(i),)) <= arr.at((srt(j),)))), axiom=ax)
+            S.made['sorter'] = p = PA((N,), lambda pos: srt(pos[0]), INT, name='sorter')
+            S.srt, S.rnk = srt, rnk
+            return p
+
+        def UniqueMask(ctx, sorted_array):
+            # contract of UniqueMask.evalf (C05: first-is-true, marks-changes), as a definition
+            S.made['sorted'] = sorted_array
+            S.made['mask'] = m = PA(sorted_array.dims, lambda pos: z3.Or(pos[0] == 0, sorted_array.at(pos) != sorted_array.at((pos[0] - 1,))), 'bool', name='mask')
+            return m
+
+        def b(i):
+            return z3.If(S.made['mask'].at((i,)), 1, 0)
+        S.b = b
+
+        def Find(ctx, mask):
+            if mask is not S.made.get('mask'):
+                raise Unsupported('Find of another array')
+            cnt, F = z3.Function(ctx.name('count'), I, I), z3.Function(ctx.name('find'), I, I)
+            c = ctx.int('len(find)', report=False)
+            ax = ('numpy.nonzero of a bool vector: with count(k) = number of True in mask[0..k] (recurrence), the result has count(n-1) entries, '
+                  'is strictly increasing, lists only True positions, and a True position i is entry number count(i)-1')
+            ctx.assume(z3.Implies(N > 0, cnt(0) == b(z3.IntVal(0))), axiom=ax)
+            ctx.assume(qforall(1, lambda i: z3.Implies(z3.And(1 <= i, i < N), cnt(i) == cnt(i - 1) + b(i))), axiom=ax)
+            ctx.assume(c == z3.If(N > 0, cnt(N - 1), 0), axiom=ax)
+            ctx.assume(qforall(1, lambda j: z3.Implies(z3.And(0 <= j, j < c), z3.And(0 <= F(j), F(j) < N, mask.at((F(j),))))), axiom=ax)
+            ctx.assume(qforall(1, lambda j: z3.Implies(z3.And(0 <= j, j + 1 < c), F(j) < F(j + 1))), axiom=ax)
+            ctx.assume(qforall(1, lambda i: z3.Implies(z3.And(0 <= i, i < N, mask.at((i,))), F(cnt(i) - 1) == i)), axiom=ax)
+            # L-MONO for the counting function (adjacent-monotone by the recurrence)
+            ctx.assume(qforall(2, lambda i, j: z3.Implies(z3.And(0 <= i, i <= j, j < N), cnt(i) <= cnt(j))),
+                       axiom='L-MONO: count(k) is adjacent-monotone (recurrence with increments 0/1), hence monotone (lemmas/LMono.lean)')
+            S.cnt, S.F, S.c = cnt, F, c
+            S.made['find'] = p = PA((c,), lambda pos: F(pos[0]), INT, name='find')
+            return p
+
+        def UniqueInverse(ctx, mask, sorter):
+            if mask is not S.made.get('mask') or sorter is not S.made.get('sorter'):
+                raise Unsupported('UniqueInverse of other arrays')
+            inv = z3.Function(ctx.name('inverse'), I, I)
+            ax = 'contract of UniqueInverse.evalf (C05: first, step) for a permutation sorter'
+            ctx.assume(z3.Implies(N > 0, inv(S.srt(0)) == b(z3.IntVal(0)) - 1), axiom=ax)
+            ctx.assume(qforall(1, lambda i: z3.Implies(z3.And(1 <= i, i < N), inv(S.srt(i)) == inv(S.srt(i - 1)) + b(i))), axiom=ax)
+            S.inv = inv
+            S.made['inverse'] = p = PA((N,), lambda pos: inv(pos[0]), INT, name='inverse')
+            return p
+        S.globals = A.ir_globals(ArgSort=ArgSort, UniqueMask=UniqueMask, Find=Find, UniqueInverse=UniqueInverse)
+        return S
+
+    def body(self, cx, S, call):
+        result = call(self.fn, *S.args, **S.kwargs)
+        if not all(x in S.made for x in ('sorter', 'sorted', 'mask', 'find', 'inverse')):
+            return result  # some stage is missing: the postcondition will not be provable
+        N, k, cnt, F, inv, srt = S.N, S.k, S.cnt, S.F, S.inv, S.srt
+        srtd = lambda i: S.made['sorted'].at((i,))
+        induction(cx, 'inverse[sorter[k]]=count(k)-1', N, lambda i: inv(srt(i)) == cnt(i) - 1, k)
+        induction(cx, 'sorted[find[count(k)-1]]=sorted[k]', N, lambda i: z3.And(cnt(i) >= 1, srtd(F(cnt(i) - 1)) == srtd(i)), k)
+        # the generic position m of the input is sorter[rank[m]] (instance of the argsort axiom, restated so that the term exists)
+        m, rnk = S.m, S.rnk
+        cx.lemma('hint:m-is-sorter-of-its-rank', z3.Implies(z3.And(0 <= m, m < N), z3.And(0 <= rnk(m), rnk(m) < N, srt(rnk(m)) == m)))
+        cx.lemma('hint:count-at-most-total', z3.Implies(z3.And(0 <= m, m < N), cnt(rnk(m)) <= cnt(N - 1)))
+        return result
+
+    def ensures(self, cx, S, result):
+        if not (isinstance(result, tuple) and len(result) == 2 and all(isinstance(x, PA) and x.ndim == 1 for x in result)):
+            raise Unsupported('result %r' % (result,))
+        uniq, inverse = result
+        if 'find' not in S.made:
+            return [('result-structure', z3.BoolVal(False))]
+        W = lambda u: S.srt(S.F(u))
+        out = [('inverse-length', inverse.dims[0] == S.N)]
+        for name, f in unique_spec(lambda i: S.arr.at((i,)), S.N, lambda u: uniq.at((u,)), uniq.dims[0], lambda m: inverse.at((m,)), W, forall=lambda body: body(S.m)):
+            out.append((name, f))
+        return out
+
+    def replay(self, ob):
+        return NativeBounded.script_for('c05b', 'unique()')
+
+
+# ------------------------------------------------------------------------------------------ _assparse of the node classes
+
+NODE_BOUND = ('fixed rank (<= 3) and axis lengths (2, 3, 4); a child is given either by 2 sparse chunks of 2 entries each (symbolic '
+              'in-range indices, symbolic real values) or by the dense default chunk of an array of symbolic reals')
+
+
+def sparse_child(cx, name, dims, nchunks=2, length=2):
+    """An array DEFINED as the scatter of its chunks (so the chunks denote it), indices assumed inside its shape."""
+    chunks = []
+    for j in range(nchunks):
+        idx = [A.fresh(cx, '%s.chunk%d.index%d' % (name, j, k), (length,), INT) for k in range(len(dims))]
+        val = A.fresh(cx, '%s.chunk%d.values' % (name, j), (length,), FLOAT)
+        for k, i in enumerate(idx):
+            for p in range(length):
+                cx.assume(z3.And(0 <= i.at((p,)), i.at((p,)) < dims[k]))
+        chunks.append((*idx, val))
+    return PA(dims, A.scatter(chunks, len(dims)), FLOAT, name=name, attrs={'_assparse': tuple(chunks)})
+
+
+def dense_child(cx, name, dims):
+    """An array of symbolic reals; its chunks are whatever the default rule (real body of Array._assparse) yields."""
+    return A.fresh(cx, name, dims, FLOAT)
+
+
+def child(cx, kind, name, dims, **kw):
+    return sparse_child(cx, name, dims, **kw) if kind == 'sparse' else dense_child(cx, name, dims)
+
+
+class NumpyConcrete:
+    """numpy on small concrete integer vectors, as far as Multiply._assparse uses it."""
+
+    def sym_getattr(self, ctx, name):
+        ints = lambda x: [int(i) for i in ops.iterate(ctx, x)]
+        if name == 'union1d':
+            return lambda ctx, a, b: tuple(sorted(set(ints(a)) | set(ints(b))))
+        if name == 'searchsorted':
+            import bisect
+            return lambda ctx, a, v: tuple(bisect.bisect_left(ints(a), x) for x in ints(v))
+        if name == 'arange':
+            return lambda ctx, *a: tuple(range(*[int(x) for x in a]))
+        raise Unsupported('numpy.' + name)
+
+
+def _real(ref):
+    return lambda ctx, *a, **k: ctx.interp.call_function(extract.get(ref).node, a, k)
+
+
+class NodeAssparse(Contract):
+    """<Class>._assparse: given children whose chunks denote them, scattering the returned chunks into zeros gives the node's
+    dense value (meaning table in the scenario builders below = the evalf of the class), with every index inside the shape."""
+    prop = PROP
+    bounded = NODE_BOUND
+
+    def __init__(self, cls, label, build):
+        self.fn = 'evaluable:%s._assparse' % cls
+        self.cls, self.label, self.build = cls, label, build
+
+    def setup(self, cx):
+        node = self.build(cx)
+        g = A.ir_globals(numpy=NumpyConcrete(), _gathersparsechunks=_real('evaluable:_gathersparsechunks'))
+        return State(args=(node,), node=node, globals=g)
+
+    def ensures(self, cx, S, result):
+        node = S.node
+        dims = node.concrete_dims()
+        if not isinstance(result, tuple) or not all(isinstance(c, tuple) and len(c) == node.ndim + 1 and all(isinstance(x, PA) for x in c) for c in result):
+            return [('chunk-structure', z3.BoolVal(False))]
+        shapes_ok, inside = [], []
+        for *idx, val in result:
+            vd = val.concrete_dims()
+            if vd is None or any(i.concrete_dims() != vd or i.dtype != INT for i in idx):
+                return [('chunk-structure', z3.BoolVal(False))]
+            for p in val.positions():
+                for k, i in enumerate(idx):
+                    inside.append(z3.And(0 <= i.at(p), i.at(p) < dims[k]))
+        if node.ndim == 0 and len(result) > 1:
+            return [('chunk-structure', z3.BoolVal(False))]
+        sc = A.scatter(result, node.ndim)
+        eqs = [(J, sc(tuple(z3.IntVal(x) for x in J)) == A.elem(FLOAT, node.at(J))) for J in node.positions()]
+        out = [('chunk-structure', z3.BoolVal(True)), ('index-in-shape', z3.And(*inside) if inside else z3.BoolVal(True))]
+        if self.cls == 'Multiply':
+            # products of symbolic reals: both sides are expanded into monomials over the value atoms (c05_arr.poly); the
+            # obligation is the equality of the indicator coefficients, monomial by monomial (linear arithmetic over the indices)
+            eqs = [A.poly_equal(e.arg(0), e.arg(1)) for _, e in eqs]
+            return out + [('scatter-equals-dense', z3.And(*eqs))]
+        return out + [('scatter-equals-dense', z3.And(*[e for _, e in eqs]) if eqs else z3.BoolVal(True))]
+
+    def replay(self, ob):
+        return NativeBounded.script_for('c05b', 'node_assparse()')
+
+
+def node(cls, dims, at, **attrs):
+    n = PA(dims, at, FLOAT, name=cls, attrs=attrs, classes=(cls, 'Array'))
+    n.attrs['super()._assparse'] = Lazy(lambda ctx: ctx.interp.call_function(extract.get('evaluable:Array._assparse').node, (n,), {}))
+    return n
+
+
+def _scenarios():
+    out = []
+    add = lambda cls, label, build: out.append(NodeAssparse(cls, label, build))
+    for kind in ('sparse', 'dense'):
+        # default rule: the node is its own value
+        for dims in ((3,), (2, 3), (2, 3, 2)):
+            if kind == 'dense':
+                add('Array', 'shape=%s' % (dims,), lambda cx, dims=dims: A.fresh(cx, 'self', dims, FLOAT))
+        for dims, n in (((3,), 2), ((2, 3), 2), ((), 3)):
+            def b(cx, dims=dims, n=n, kind=kind):
+                f = child(cx, kind, 'func', dims)
+                return node('InsertAxis', dims + (n,), lambda J: f.at(J[:-1]), func=f, length=A.scalar(n))
+            add('InsertAxis', 'func=%s%s,length=%d' % (kind, dims, n), b)
+        for dims, axes in (((2, 3), (1, 0)), ((2, 3, 4), (2, 0, 1)), ((2, 3, 4), (1, 2, 0))):
+            def b(cx, dims=dims, axes=axes, kind=kind):
+                f = child(cx, kind, 'func', dims)
+                return node('Transpose', tuple(dims[a] for a in axes), lambda J: f.at(tuple(J[axes.index(j)] for j in range(len(dims)))), func=f, axes=axes)
+            if kind == 'sparse' or len(dims) == 2:
+                add('Transpose', 'func=%s%s,axes=%s' % (kind, dims, axes), b)
+        for dims in ((3,), (2, 3)):
+            def b(cx, dims=dims, kind=kind):
+                f = child(cx, kind, 'func', dims)
+                return node('Diagonalize', dims + dims[-1:], lambda J: z3.If(J[-1] == J[-2], f.at(J[:-1]), z3.RealVal(0)), func=f)
+            add('Diagonalize', 'func=%s%s' % (kind, dims), b)
+        for dims in ((2, 3), (3, 2), (2, 2, 3)):
+            def b(cx, dims=dims, kind=kind):
+                f = child(cx, kind, 'func', dims)
+                n1 = dims[-1]
+                return node('Ravel', dims[:-2] + (dims[-2] * n1,), lambda J: f.at(J[:-1] + (J[-1] / n1, J[-1] % n1)), func=f)
+            if kind == 'sparse' or len(dims) == 2:
+                add('Ravel', 'func=%s%s' % (kind, dims), b)
+        for dims, sh in (((6,), (2, 3)), ((6,), (3, 2)), ((2, 6), (3, 2))):
+            def b(cx, dims=dims, sh=sh, kind=kind):
+                f = child(cx, kind, 'func', dims)
+                return node('Unravel', dims[:-1] + sh, lambda J: f.at(J[:-2] + (J[-2] * sh[1] + J[-1],)), func=f, sh1=A.scalar(sh[0]), sh2=A.scalar(sh[1]))
+            if kind == 'sparse' or len(dims) == 1:
+                add('Unravel', 'func=%s%s,shape=%s' % (kind, dims, sh), b)
+        for dims in ((3,), (2, 3), (2, 3, 2)):
+            def b(cx, dims=dims, kind=kind):
+                f = child(cx, kind, 'func', dims)
+                n = dims[-1]
+
+                def at(J):
+                    r = z3.RealVal(0)
+                    for j in range(n):
+                        r = r + f.at(J + (z3.IntVal(j),))
+                    return r
+                return node('Sum', dims[:-1], at, func=f)
+            add('Sum', 'func=%s%s' % (kind, dims), b)
+    for dims in ((3,), (2, 3)):
+        add('Zeros', 'shape=%s' % (dims,), lambda cx, dims=dims: node('Zeros', dims, lambda J: z3.RealVal(0)))
+    for kinds in (('sparse', 'sparse'), ('sparse', 'dense'), ('dense', 'dense')):
+        for dims in ((3,), (2, 3)):
+            def b(cx, dims=dims, kinds=kinds):
+                f1, f2 = child(cx, kinds[0], 'func1', dims), child(cx, kinds[1], 'func2', dims)
+                return node('Add', dims, lambda J: f1.at(J) + f2.at(J), funcs=(f1, f2), _terms=(f1, f2))
+            add('Add', 'terms=%s,shape=%s' % ('+'.join(kinds), dims), b)
+    # Multiply: factors are aligned (inserted-axes) views of lower-rank arrays; `wheres` = the axes each factor really has
+    for dims, wheres, kinds in (((2, 3), ((0,), (1,)), ('sparse', 'sparse')), ((2, 3), ((1,), (0,)), ('sparse', 'dense')),
+                                ((2, 3), ((0,), (0, 1)), ('sparse', 'dense')), ((2, 3, 2), ((0, 2), (1,)), ('sparse', 'sparse')),
+                                ((2, 3), ((0,), (1,), (0,)), ('sparse', 'sparse', 'dense')), ((2, 3, 2), ((2,), (0,), (1,)), ('sparse', 'sparse', 'sparse')),
+                                ((3,), ((0,), (0,)), ('sparse', 'sparse'))):
+        def b(cx, dims=dims, wheres=wheres, kinds=kinds):
+            fs = []
+            for n, (w, kind) in enumerate(zip(wheres, kinds)):
+                u = child(cx, kind, 'factor%d' % n, tuple(dims[i] for i in w), nchunks=2, length=1)
+                fs.append(A.align(cx, u, w, dims))
+
+            def at(J):
+                r = z3.RealVal(1)
+                for f in fs:
+                    r = r * f.at(J)
+                return r
+            return node('Multiply', dims, at, funcs=tuple(fs[:2]), _factors=tuple(fs))
+        add('Multiply', 'shape=%s,factor-axes=%s,%s' % (dims, list(wheres), '*'.join(kinds)), b)
+    return out
+
+
 def contracts():
-    cs = [Assparse(0, 0)]
+    cs = [Unique(), Assparse(0, 0)]
     for r in (1, 2, 3):
         for c in (0, 1, 2):
             cs.append(Assparse(r, c))
-    return cs
+    return cs + _scenarios()
 
 
 TRUSTED = ['dense (evalf) meanings of the IR constructors in contracts/c05_arr.py (cross-checked natively: native/axioms_c05.py)']
